@@ -12,7 +12,7 @@ KEYS = ["csv", "df_str", "df_nat", "val_df", "val_csv", "val_dfn"]
 
 
 def run(ctx):
-    n = 100 if ctx.tier == "quick" else 6000      # + directed tables: quick ~310 tables, thorough ~6500
+    n = 60 if ctx.tier == "quick" else 6000       # + directed tables: quick ~365 tables, thorough ~6800
     ctx.cov["rule"] = ("C19's input stream (content tables with labelled focus cells and 0-3 structural violations); each table is given to "
                        "validate_dataset() and to run('DS_r <- DS_1;') as DataFrame of str, DataFrame with native dtypes and CSV file; "
                        "distinct = (component types/roles, focus family+value, violations, row count)")
